@@ -14,6 +14,9 @@ type ssaFunc = ssa.Function
 type cfgPos struct {
 	B *ssa.BasicBlock
 	I int
+	// Ctx: the call sites through which the position's function was entered (outermost first), when the search
+	// starts inside a helper: a Return there continues after the innermost site instead of ending the search
+	Ctx []ssa.Instruction
 }
 
 // afterInstr is the position just after an instruction.
@@ -21,13 +24,13 @@ func afterInstr(in ssa.Instruction) cfgPos {
 	b := in.Block()
 	for i, x := range b.Instrs {
 		if x == in {
-			return cfgPos{b, i + 1}
+			return cfgPos{B: b, I: i + 1}
 		}
 	}
-	return cfgPos{b, len(b.Instrs)}
+	return cfgPos{B: b, I: len(b.Instrs)}
 }
 
-func entryPos(fn *ssa.Function) cfgPos { return cfgPos{fn.Blocks[0], 0} }
+func entryPos(fn *ssa.Function) cfgPos { return cfgPos{B: fn.Blocks[0], I: 0} }
 
 // reachAvoiding searches for a path from any start to an instruction satisfying target that
 // does not execute an instruction satisfying blocker. Returns the witness path (block indexes)
@@ -124,7 +127,14 @@ func reachAvoiding(starts []cfgPos, target, blocker func(ssa.Instruction) bool, 
 	roots := map[*ssa.Function]bool{}
 	var stack []node
 	for _, s := range starts {
-		stack = append(stack, node{s, []int{s.B.Index}, nil})
+		var fr []frame
+		for _, site := range s.Ctx {
+			if cs, ok := site.(ssa.CallInstruction); ok {
+				fr = append(fr, frame{cs})
+				roots[cs.Parent()] = true
+			}
+		}
+		stack = append(stack, node{cfgPos{B: s.B, I: s.I}, []int{s.B.Index}, fr})
 		roots[s.B.Parent()] = true
 	}
 	steps := 0
@@ -181,7 +191,7 @@ func reachAvoiding(starts []cfgPos, target, blocker func(ssa.Instruction) bool, 
 						k := key(nf, cal.Blocks[0])
 						if !seen[k] {
 							seen[k] = true
-							stack = append(stack, node{cfgPos{cal.Blocks[0], 0}, append(append([]int{}, n.path...), -1, cal.Blocks[0].Index), nf})
+							stack = append(stack, node{cfgPos{B: cal.Blocks[0], I: 0}, append(append([]int{}, n.path...), -1, cal.Blocks[0].Index), nf})
 						}
 						stop = true
 						break
@@ -202,7 +212,7 @@ func reachAvoiding(starts []cfgPos, target, blocker func(ssa.Instruction) bool, 
 			}
 			seen[k] = true
 			np := append(append([]int{}, n.path...), s.Index)
-			stack = append(stack, node{cfgPos{s, 0}, np, n.frames})
+			stack = append(stack, node{cfgPos{B: s, I: 0}, np, n.frames})
 		}
 	}
 	return nil, nil, false
